@@ -537,13 +537,21 @@ class Object(ObjectAliasMixin):
         See also: [`docstring`][griffe.Object.docstring],
         [`has_docstring`][griffe.Object.has_docstring].
         """
+        return self._has_docstrings(set())
+
+    def _has_docstrings(self, seen: set[int]) -> bool:
+        # `seen` guards against objects reachable from themselves through aliases
+        # (a module importing itself, modules wildcard-importing each other).
+        if id(self) in seen:
+            return False
+        seen.add(id(self))
         if self.has_docstring:
             return True
         for member in self.members.values():
             try:
-                if (not member.is_imported or member.is_public) and member.has_docstrings:
+                if (not member.is_imported or member.is_public) and member._has_docstrings(seen):
                     return True
-            except AliasResolutionError:
+            except (AliasResolutionError, CyclicAliasError):
                 continue
         return False
 
@@ -1129,8 +1137,11 @@ class Alias(ObjectAliasMixin):
         See also: [`has_docstring`][griffe.Alias.has_docstring],
         [`docstring`][griffe.Alias.docstring].
         """
+        return self._has_docstrings(set())
+
+    def _has_docstrings(self, seen: set[int]) -> bool:
         try:
-            return self.final_target.has_docstrings
+            return self.final_target._has_docstrings(seen)
         except (AliasResolutionError, CyclicAliasError):
             return False
 
